@@ -25,6 +25,10 @@ class _Continue(Exception):
     pass
 
 
+class PathCut(Exception):
+    """The current path ends here (after checking a loop invariant's preservation)."""
+
+
 _SRC_CACHE = {}
 
 
@@ -109,6 +113,7 @@ class Engine:
         self.solver.set("timeout", 5000)
         self.summaries = {}               # qualname -> callable(E, func, args, kwargs) -> value
         self.loop_specs = {}              # (qualname, ordinal) -> LoopSpec
+        self.attr_hooks = {}              # attribute name -> hook(E, obj, name, 'get'|'set', value) (ownership / interference passes)
         self.inlined = set()
         self.used_models = set()
         self.stats = {"paths": 0, "branches": 0, "feas_checks": 0}
@@ -351,6 +356,8 @@ class Engine:
                     outcome = ("return", v)
                 except PyRaise as e:
                     outcome = ("raise", e.exc)
+                except PathCut:
+                    outcome = ("cut", None)
             except Infeasible:
                 work.extend(self.new_prefixes)
                 continue
@@ -373,6 +380,8 @@ class Engine:
             return self.models.method(self, fv.obj, fv.name, list(args), kwargs)
         if isinstance(fv, (staticmethod, classmethod)):
             return self.call(fv.__func__, args, kwargs)
+        if isinstance(fv, types.FunctionType) and self.summaries and qualname(fv) in self.summaries and qualname(fv) not in self.stack:
+            return self.summaries[qualname(fv)](self, fv, list(args), kwargs)
         m = self.models.lookup(fv)
         if m is not None:
             self.used_models.add(getattr(m, "_model_name", getattr(fv, "__name__", str(fv))))
@@ -797,6 +806,11 @@ class Engine:
         if isinstance(obj, SOpt):
             obj = self.deopt(obj)
         if isinstance(obj, SObj):
+            h = self.attr_hooks.get(name)
+            if h is not None:
+                r = h(self, obj, name, "get", None)
+                if r is not NotImplemented:
+                    return r
             if name in obj.attrs:
                 return obj.attrs[name]
             if name in obj.deleted:
@@ -862,6 +876,11 @@ class Engine:
 
     def setattr(self, obj, name, v):
         if isinstance(obj, SObj):
+            h = self.attr_hooks.get(name)
+            if h is not None:
+                r = h(self, obj, name, "set", v)
+                if r is not NotImplemented:
+                    return r
             raw = inspect.getattr_static(obj.cls, name, None)
             if isinstance(raw, property):
                 if raw.fset is None:
